@@ -11,6 +11,8 @@ COQ_TARGETS = ["Sched/Properties_C11.v", "Sched/Corr.v"]
 
 def run(ctx):
     ctx.proof_stage([base.GROUP], "Sched/Properties_C11.v", extra_targets=["Sched/Corr.v"])
+    if not ctx.quick():
+        ctx.coqchk(["V.Sched.Properties_C11"])
     base.run_group(ctx, "C11")
 
 
